@@ -167,6 +167,102 @@ def text_samples(n: int):
     return out, meta
 
 
+def queue_samples(n: int):
+    """register queues: a built queue and a random history of can_access / dequeue calls (rejected ones included)"""
+    import random
+
+    from reg_access import AccessType, RegAccQBuilder
+
+    out, meta = [], []
+    case = 0
+    while len(meta) < n:
+        rng = random.Random("kernel-queue:%s:%d" % (core.base_seed(), case))
+        case += 1
+        owners = rng.sample(range(0, 40), rng.randint(1, 4))
+        reqs = []
+        for o in sorted(owners):           # program order: per owner an optional read, then an optional write
+            if rng.random() < 0.7:
+                reqs.append((False, o))
+            if rng.random() < 0.6:
+                reqs.append((True, o))
+        if not reqs:
+            continue
+        b = RegAccQBuilder()
+        for w, o in reqs:
+            b.append(AccessType.WRITE if w else AccessType.READ, o)
+        q = b.create()
+        ops, trace = [], []
+        for _ in range(rng.randint(3, 12)):
+            o = rng.choice(owners + [99])
+            if rng.random() < 0.5:
+                w = rng.random() < 0.5
+                ops.append(f".can {'true' if w else 'false'} {o}")
+                try:
+                    trace.append(1 if q.can_access(AccessType.WRITE if w else AccessType.READ, o) else 0)
+                except Exception:  # noqa: BLE001
+                    trace.append(2)
+            else:
+                ops.append(f".deq {o}")
+                try:
+                    q.dequeue(o)
+                    trace.append(1)
+                except Exception:  # noqa: BLE001
+                    trace.append(0)
+        reqs_l = lean_list(f"({'true' if w else 'false'}, {o})" for w, o in reqs)
+        out.append(f"/-- queue sample {len(meta)} -/\nexample : qTrace (Queue.build {reqs_l}) {lean_list(ops)} = {lean_list(str(t) for t in trace)} := by decide\n")
+        meta.append({"case": case - 1, "requests": len(reqs), "calls": len(ops), "exceptions": sum(1 for t, o in zip(trace, ops) if (t == 2) or (t == 0 and o.startswith('.deq')))})
+    return out, meta
+
+
+def icase_samples(n: int):
+    import random
+
+    from harness import comp_text
+
+    out, meta = [], []
+    case = 0
+    while len(meta) < n:
+        rng = random.Random("kernel-icase:%s:%d" % (core.base_seed(), case))
+        case += 1
+        a = comp_text.rand_str18(rng)
+        b = comp_text.rand_str18(rng, a)
+        if len(a) > 12 or len(b) > 12:
+            continue
+        try:
+            bits = comp_text.icase_obs(a, b)[0][:11]
+        except Exception:  # noqa: BLE001
+            continue
+        want = lean_list("true" if c == "1" else "false" for c in bits)
+        out.append(f"/-- ICaseString sample {len(meta)} -/\nexample : icaseCanon {chars_lean(a)} {chars_lean(b)} = {want} := by decide\n")
+        meta.append({"case": case - 1, "a": a, "b": b, "equal": bits[0] == "1"})
+    return out, meta
+
+
+def bag_samples(n: int):
+    import random
+
+    from harness import comp_text
+
+    out, meta = [], []
+    case = 0
+    while len(meta) < n:
+        rng = random.Random("kernel-bag:%s:%d" % (core.base_seed(), case))
+        case += 1
+        rec = [[u, [rng.randrange(4) for _ in range(rng.randint(0, 3))]] for u in rng.sample(range(5), rng.randint(0, 3))]
+        vars_ = comp_text.record_variants(rng, [[str(k), v] for k, v in rec], [0, 1, 2, 3])
+        other = rng.choice(vars_) if vars_ else []
+        other = [[int(k) if str(k).isdigit() else 9, list(v)] for k, v in other]
+        a, b = comp_text.mk_bag([[k, v] for k, v in rec], "int"), comp_text.mk_bag([[k, v] for k, v in other], "int")
+        try:
+            want = f"({'true' if a == b else 'false'}, {'true' if b == a else 'false'}, {len(a)}, {len(b)})"
+        except Exception:  # noqa: BLE001
+            continue
+        fmt = lambda r: lean_list(f"({k}, {lean_list(str(x) for x in v)})" for k, v in r)   # noqa: E731
+        out.append(f"/-- cycle-record sample {len(meta)} -/\nexample : bagCanon {fmt(rec)} {fmt(other)} = {want} := by decide\n")
+        meta.append({"case": case - 1, "units": len(rec), "equal": a == b})
+    return out, meta
+
+
 def main(n: int = 16) -> int:
     core.install_repo()
     core.ensure_built(["ProcSim.Model.Canon"])
@@ -190,7 +286,13 @@ def main(n: int = 16) -> int:
                      "outcome": impl["outcome"], "cycles": len(impl["table"])})
     if os.environ.get("VERIF_KERNEL_COMPONENT", "sim") == "text":
         tout, meta = text_samples(n)
-        out = out[:4] + tout
+        iout, imeta = icase_samples(n)
+        bout, bmeta = bag_samples(n)
+        out = out[:4] + tout + iout + bout
+        meta = meta[:2] + imeta[:2] + bmeta[:2] + [{"parser": len(tout), "ICaseString": len(iout), "records": len(bout)}]
+    if os.environ.get("VERIF_KERNEL_COMPONENT", "sim") == "queue":
+        qout, meta = queue_samples(2 * n)
+        out = out[:4] + qout
     if os.environ.get("VERIF_KERNEL_COMPONENT", "sim") == "loader":
         lout, meta = loader_samples(n)
         out = out[:4] + lout
